@@ -176,6 +176,14 @@ def record_scale_trace(spec):
         aargs = [x, starts, L, w, om] + ([args[-1]] if order >= 1 else [])
         getattr(core, aname + "_np")(*aargs)
         getattr(core, aname)(*aargs)
+    # decoy calls of the very kernels under test with the same L but another window, another frequency (the opposite sign of omega
+    # included), other starts and the channels exchanged: a kernel is a function of its arguments, nothing may be remembered per L
+    w_decoy = np.ascontiguousarray(w[::-1] * 0.5 + 0.25)
+    dargs = ([y] if mode == "auto" else [y, x]) + [np.ascontiguousarray(starts[::-1]), L, w_decoy]
+    for om_d in (-om, om + 0.125):
+        dfull = dargs + [om_d] + ([args[-1]] if order >= 1 else [])
+        getattr(core, name)(*dfull)
+        getattr(core, name + "_np")(*dfull)
     runs.append(("numba", tuple(float(v) for v in getattr(core, name)(*args))))
     runs.append(("numpy", tuple(float(v) for v in getattr(core, name + "_np")(*args))))
     if K >= 2:
